@@ -5,7 +5,8 @@
                                     reversed one, a pseudo-random task schedule and a pseudo-random complete
                                     interleaving of the swaps; printed only if all four agree
      merkle <L> <conc> <T>          task structure: "sub:k,k,..|k,..;top:k,.. indep:ok sched:ok"
-     merkle-direct <L> <T>          the concurrent builder called directly: "ok" | "panic" *)
+     merkle-direct <L> <T>          the concurrent builder called directly: "ok" | "panic"
+     merkle-nodes <L> <conc> <T>    node vector of the builder called directly, ToyHasher digests *)
 open Zio
 open Datatypes
 
@@ -109,7 +110,33 @@ let merkle_direct l t =
   | Par.Panic -> "panic"
   | Par.Done r -> if r = Par.merkle_serial 0 mg leaves junk then "ok" else "differs-from-serial"
 
+(* node vector of the (concurrent / sequential) builder over ToyHasher digests (Gallina twin Model/ToyHash.v), leaves =
+   toy_hash(le_bytes8(i)); printed as root / xor / position-weighted sum (mod 2^64) of the 64-bit nodes.
+   merkle_par_plan depends on T only through npo2 T (see its definition): results are memoised on (L, conc, npo2 T). *)
+let nodes_cache : (int * bool * int, string) Stdlib.Hashtbl.t = Stdlib.Hashtbl.create 64
+let merkle_nodes l conc t =
+  let tn = nat_of_int t in
+  let ns = int_of_nat (Par.npo2 tn) in
+  let key = (l, conc, if conc then ns else 0) in
+  match Stdlib.Hashtbl.find_opt nodes_cache key with
+  | Some r -> r
+  | None ->
+    let leaves = Stdlib.List.init l (fun i -> ToyHash.toy_hash (MachInt.to_le_bytes (nat_of_int 8) (z_of_int i))) in
+    let junk = Stdlib.List.init l (fun i -> z_of_int (i + 77)) in
+    let res =
+      if conc then Par.merkle_par BinNums.Z0 ToyHash.toy_merge leaves junk tn (nats (range (l / 2))) (nats (range ns))
+      else Par.Done (Par.merkle_serial BinNums.Z0 ToyHash.toy_merge leaves junk) in
+    let r = match res with
+      | Par.Panic -> "panic"
+      | Par.Done nodes ->
+          let w = Stdlib.List.map (fun z -> Stdlib.Int64.of_string ("0x" ^ hex_of_z z)) nodes in
+          let x = Stdlib.List.fold_left Stdlib.Int64.logxor 0L w in
+          let (_, ws) = Stdlib.List.fold_left (fun (i, acc) v -> (Stdlib.Int64.add i 1L, Stdlib.Int64.add acc (Stdlib.Int64.mul v i))) (1L, 0L) w in
+          Stdlib.Printf.sprintf "root:%Lx xor:%Lx wsum:%Lx len:%d" (Stdlib.List.nth w 1) x ws (Stdlib.List.length w) in
+    Stdlib.Hashtbl.replace nodes_cache key r; r
+
 let eval = function
+  | [ "merkle-nodes"; l; c; t ] -> merkle_nodes (int_of_string l) (c = "1") (int_of_string t)
   | [ "bim"; n; mn; c; t ] -> bim (int_of_string n) (int_of_string mn) (c = "1") (int_of_string t)
   | [ "permute"; n; c; t ] -> permute (int_of_string n) (c = "1") (int_of_string t)
   | [ "merkle"; l; c; t ] -> merkle (int_of_string l) (c = "1") (int_of_string t)
